@@ -17,6 +17,9 @@ GROUPS = [
 ]
 GROUPS += [g for g in _c05.GROUPS if "Memory.write1" in g.name or "Memory.write16" in g.name or "parse_align" in g.name]
 GROUPS += [g for g in _c04.GROUPS if "Var.divmod" == g.name.split("/")[1]]
+# the statement loop of assemble() owns two fixed 512-byte token buffers (the `equ` text loop is bounded by its loop invariant ptr < 511)
+import C12 as _c12
+GROUPS += [g for g in _c12.GROUPS if g.name == "C12/assemble"]
 LEVEL = "proof"
 TRUSTED = ["the character reader is replaced by a stream contract returning an arbitrary byte or EOF per call (streams shorter than 2^28 characters)", "malloc succeeds; stack depth of the C recursion is not modelled"]
 MANIFEST = {
